@@ -189,13 +189,13 @@ func c03ProbeEncryption(c *Ctx, s *c03Set, v *c03Variant, api string, deg, level
 	bound := c03Bound(s, v.key)
 	bnd := new(big.Int).SetInt64(int64(bound))
 
-	// classification of the configurations in which the code is known (from reading) to misbehave
+	// finding keys of the configurations in which the code misbehaved before the fixes C03-1 … C03-5
 	key := "C03-noise-upper"
 	switch {
-	case v.key == "sk" && deg >= 2:
-		key = "C03-sk-degree-ge2"
 	case deg >= 2 && junk:
 		key = "C03-degree-ge2-stale"
+	case v.key == "sk" && deg >= 2:
+		key = "C03-sk-degree-ge2"
 	case s.xeKind == "th" && !isNTT && path != "pkP":
 		key = "C03-ternaryH-readandadd"
 	case isMont && path != "pkP":
@@ -210,9 +210,10 @@ func c03ProbeEncryption(c *Ctx, s *c03Set, v *c03Variant, api string, deg, level
 
 	// lower side: only meaningful where the upper side holds (otherwise the noise is garbage anyway), and
 	// where the declared distribution itself makes an all-zero or repeated error vector negligible
-	// (with N = 16 and Xe = Ternary{P: 1/3} an all-zero e has probability (2/3)^16 ≈ 1.5e-3).
-	if ok && path == "sk" && !c03DegeneracyNegligible(s) {
-		c.Count("noise_nonzero:skipped(declared Xe degenerate at this N)")
+	// (with N = 16 and Xe = Ternary{P: 1/3} an all-zero e has probability (2/3)^16 ≈ 1.5e-3; with P present
+	// the noise is the rounding noise r0 + r1·s of std sqrt((1+h)/12), about 0.65 for h = 4).
+	if ok && !c03DegeneracyNegligible(s, path) {
+		c.Count("noise_nonzero:skipped(declared distributions degenerate at this N)")
 	} else if ok {
 		detail = ""
 		if inf.Sign() == 0 {
@@ -389,8 +390,15 @@ func c03Statistics(c *Ctx, s *c03Set) {
 		}
 		c.Probe("noise_std", args, "C03-noise-std", detail)
 		if decl, has := declared[path]; has {
+			// NoiseFreshSK is the declared std of Xe itself: band 3.  NoiseFreshPK is a heuristic, (h+1)·σ² with
+			// h = XsHammingWeight(): it leaves out one of the two products (u·e_pk, e1·s) and, for a Gaussian
+			// secret, uses E‖s‖₁ where E‖s‖² belongs; it underestimates by up to ≈ 3.3 (observed), band 4.
+			band := 3.0
+			if path != "sk" {
+				band = 4.0
+			}
 			detail = ""
-			if emp < decl/3 || emp > 3*decl {
+			if emp < decl/band || emp > band*decl {
 				detail = fmt.Sprintf("empirical_std=%.4f library_declared=%.4f (%s)", emp, decl, s.label)
 			}
 			c.Probe("declared_std", args, "C03-declared-std", detail)
@@ -455,19 +463,30 @@ func c03ProbeDecryptDeg7(c *Ctx, s *c03Set, ct *rlwe.Ciphertext) {
 	c.Count("dec:deg7-nonNTT")
 }
 
-// c03DegeneracyNegligible: under the DECLARED Xe, are P(e = 0) and P(e = e') below 2^-30 ?
-func c03DegeneracyNegligible(s *c03Set) bool {
+// c03DegeneracyNegligible: under the DECLARED distributions, are P(noise = 0) and P(noise = noise') below 2^-30 ?
+func c03DegeneracyNegligible(s *c03Set, path string) bool {
 	var zero, coll float64
-	switch x := s.params.Xe().(type) {
-	case ring.Ternary:
-		if x.H != 0 {
-			return true // exactly H non-zero coefficients; positions and signs collide with prob. ≤ 2^-H/C(N,H)
+	gauss := func(sigma float64) {
+		zero = math.Min(1, 0.4/sigma)
+		coll = math.Min(1, 0.2821/sigma)
+	}
+	sigU2 := float64(s.N) * s.sigS * s.sigS * s.kappa
+	switch path {
+	case "pkP":
+		gauss(math.Sqrt((1 + sigU2) / 12))
+	case "pkNoP":
+		gauss(s.sigE * math.Sqrt(2*sigU2+1))
+	default:
+		switch x := s.params.Xe().(type) {
+		case ring.Ternary:
+			if x.H != 0 {
+				return true // exactly H non-zero coefficients
+			}
+			zero = 1 - x.P
+			coll = (1-x.P)*(1-x.P) + x.P*x.P/2
+		case ring.DiscreteGaussian:
+			gauss(x.Sigma)
 		}
-		zero = 1 - x.P
-		coll = (1-x.P)*(1-x.P) + x.P*x.P/2
-	case ring.DiscreteGaussian:
-		zero = math.Min(1, 0.4/x.Sigma)
-		coll = math.Min(1, 0.2821/x.Sigma)
 	}
 	lim := math.Exp2(-30)
 	return math.Pow(zero, float64(s.N)) < lim && math.Pow(coll, float64(s.N)) < lim
